@@ -124,14 +124,14 @@ def respStr : Resp Nat → String
 
 /-! ### the model graph as a table -/
 
-/-- the graph function backed by an array (same function on `0..N-1`; the padding is a parameter) -/
-def tabulate (N : Nat) (g : Graph Nat) : Graph Nat :=
-  let arr : Array (Node Nat) := Array.ofFn (n := N) (fun j => g j.val)
-  fun j => arr[j]?.getD (.param 0 0)
+/-- the graph function backed by an array (the padding beyond the array is a parameter).
+    NB the table is always passed around as DATA (an `Array` argument, evaluated once): a definition
+    `tabulate N g : Graph Nat := let arr := …; fun j => …` is compiled as a 3-ary function that
+    rebuilds the array on every lookup. -/
+def graphOf (arr : Array (Node Nat)) : Graph Nat := fun j => arr[j]?.getD (.param 0 0)
 
-def ofNodes (ns : List (Node Nat)) : Graph Nat :=
-  let arr := ns.toArray
-  fun j => arr[j]?.getD (.param 0 0)
+/-- the first `N` entries of a graph function, tabulated -/
+def table (N : Nat) (g : Graph Nat) : Array (Node Nat) := Array.ofFn (n := N) (fun j => g j.val)
 
 /-- every dependency has a smaller id (the model's `WF`); a request violating it is malformed -/
 def wfNodes (ns : List (Node Nat)) : Bool :=
@@ -142,18 +142,18 @@ def wfNodes (ns : List (Node Nat)) : Bool :=
 
 /-! ### (a) sequential lines -/
 
-def runSeq (N : Nat) : Graph Nat → List (Call Nat) → List (Resp Nat)
+def runSeq (N : Nat) : Array (Node Nat) → List (Call Nat) → List (Resp Nat)
   | _, [] => []
-  | g, c :: cs =>
-    let r := seqStep g c
-    r.2 :: runSeq N (tabulate N r.1) cs
+  | arr, c :: cs =>
+    let r := seqStep (graphOf arr) c
+    r.2 :: runSeq N (table N r.1) cs
 
 def handleSeq : P String := do
   let ns ← pList pNode
   let calls ← pList pCall
   pEnd
   if !wfNodes ns then failure
-  pure (" ".intercalate ((runSeq ns.length (ofNodes ns) calls).map respStr))
+  pure (" ".intercalate ((runSeq ns.length ns.toArray calls).map respStr))
 
 /-! ### (b) linearization search (untrusted) + verified witness check -/
 
@@ -186,77 +186,257 @@ def collectOps (evs : List (Event Nat)) : Option (Array OpRec) := do
       if !(evs.any fun e2 => match e2 with | .inv id2 _ _ => id2 == id | _ => false) then none
   pure out
 
+/-! The search is a depth-first placement of operations, real-time minimal ones first:
+    * candidates = remaining operations invoked before the earliest response among the remaining ones,
+      tried in order of their response position;
+    * an operation that does not change the parameter valuation (ParameterData, Artifact, a rejected
+      call) and whose recorded response equals what the current state answers is placed at once,
+      without alternatives (it is real-time minimal and commutes with whatever follows);
+    * failed (remaining set, parameter valuation) pairs are memoised;
+    * second phase only (`prune`): every update of a history writes a unique value, so the response
+      of a read names the update it read from, per parameter — for an Artifact after inverting the
+      hash over all candidate valuations.  A state in which some remaining read can no longer see
+      the values it returned (the writer is already overwritten, or cannot precede it) is abandoned.
+    Nothing here is trusted: the order found is validated by `PolyVerif.Linz.checkWitness`. -/
+
 structure SearchSt where
   failed : Std.HashSet (Nat × List Nat) := {}
   budget : Nat
 
 /-- the parameter valuation of a state: what every response is a function of (C11 `read_fresh`) -/
-def valuation (N : Nat) (g : Graph Nat) : List Nat :=
-  (List.range N).filterMap fun j => match g j with
+def valuation (arr : Array (Node Nat)) : List Nat :=
+  arr.toList.filterMap fun n => match n with
     | .param v _ => some v
     | .struct _ => none
 
-/-- depth-first search; `byResp` = the operations sorted by response position, `mask` = bit k set
-    iff `byResp[k]` is still to be placed; returns the placed indices, first to last -/
-partial def search (N : Nat) (byResp : Array OpRec) (g : Graph Nat) (mask : Nat) (acc : List Nat) :
+/-- `evalSpec` of every node, bottom-up (dependencies have smaller ids) -/
+def nodeVals (arr : Array (Node Nat)) : Array Nat :=
+  arr.foldl (init := #[]) fun vals n =>
+    match n with
+    | .param v _ => vals.push v
+    | .struct s => vals.push (s.fn s.scalars s.arrays (s.deps.map fun d => vals[d]?.getD 0))
+
+def isParam (arr : Array (Node Nat)) (p : Nat) : Bool :=
+  match graphOf arr p with
+  | .param _ _ => true
+  | .struct _ => false
+
+def paramVal (arr : Array (Node Nat)) (p : Nat) : Option Nat :=
+  match arr[p]? with
+  | some (.param v _) => some v
+  | _ => none
+
+/-- does the call change the parameter valuation -/
+def isWrite (arr : Array (Node Nat)) : Call Nat → Bool
+  | .update p _ => isParam arr p
+  | _ => false
+
+/-- what the state answers, from the tabulated spec values (prediction; `seqStep` is run on the
+    operation actually placed) -/
+def predict (arr : Array (Node Nat)) (vals : Array Nat) : Call Nat → Resp Nat
+  | .update p _ => if isParam arr p then .ok else .err
+  | .paramData p => match graphOf arr p with
+    | .param x _ => .val x
+    | .struct _ => .err
+  | .artifact i => .val (vals[i]?.getD 0)
+
+structure Ctx where
+  N : Nat
+  ops : Array OpRec                                   -- sorted by response position
+  prune : Bool
+  /-- per operation: `none` = no constraint known; `some alts` = the read saw one of these partial
+      valuations (lists of (parameter, value)) -/
+  need : Array (Option (List (List (Nat × Nat))))
+  /-- (parameter, value) ↦ index of the update writing it; `none` = written more than once or equal
+      to the initial value (then nothing is concluded from it) -/
+  writer : Std.HashMap (Nat × Nat) (Option Nat)
+
+def feasible (cx : Ctx) (arr : Array (Node Nat)) (mask : Nat) : Bool :=
+  (List.range cx.ops.size).all fun k =>
+    !mask.testBit k ||
+    match (cx.need[k]?).getD none with
+    | none => true
+    | some alts => alts.any fun alt => alt.all fun (p, x) =>
+        paramVal arr p == some x ||
+        (match cx.writer[(p, x)]? with
+         | some (some w) => mask.testBit w && (cx.ops[w]!).invPos < (cx.ops[k]!).respPos
+         | some none => true
+         | none => false)
+
+/-- `mask` = bit k set iff `cx.ops[k]` is still to be placed; `vals = nodeVals arr`;
+    returns the placed indices, first to last -/
+partial def search (cx : Ctx) (arr : Array (Node Nat)) (vals : Array Nat) (mask : Nat) (acc : List Nat) :
     StateM SearchSt (Option (List Nat)) := do
   if mask == 0 then return some acc.reverse
   let st ← get
   if st.budget == 0 then return none
   set { st with budget := st.budget - 1 }
-  let key := (mask, valuation N g)
-  if st.failed.contains key then return none
+  let n := cx.ops.size
   -- earliest response among the remaining operations
   let mut minResp := 0
   let mut found := false
-  for k in [0:byResp.size] do
+  for k in [0:n] do
     if !found && mask.testBit k then
-      minResp := byResp[k]!.respPos
+      minResp := (cx.ops[k]!).respPos
       found := true
-  for k in [0:byResp.size] do
+  -- a candidate read / rejected call that the current state answers as recorded: place it, no alternatives
+  let mut pick : Option Nat := none
+  for k in [0:n] do
+    if pick.isNone && mask.testBit k then
+      let o := cx.ops[k]!
+      if o.invPos < minResp && !(isWrite arr o.op.call) && decide (predict arr vals o.op.call = o.op.resp) then
+        pick := some k
+  if let some k := pick then
+    let o := cx.ops[k]!
+    let r := seqStep (graphOf arr) o.op.call
+    if decide (r.2 = o.op.resp) then
+      return (← search cx (table cx.N r.1) vals (mask ^^^ (1 <<< k)) (k :: acc))
+  let key := (mask, valuation arr)
+  if (← get).failed.contains key then return none
+  if cx.prune && !(feasible cx arr mask) then
+    modify fun s => { s with failed := s.failed.insert key }
+    return none
+  for k in [0:n] do
     if mask.testBit k then
-      let o := byResp[k]!
-      if o.invPos < minResp then
-        let r := seqStep g o.op.call
+      let o := cx.ops[k]!
+      if o.invPos < minResp && decide (predict arr vals o.op.call = o.op.resp) then
+        let r := seqStep (graphOf arr) o.op.call
         if decide (r.2 = o.op.resp) then
-          let res ← search N byResp (tabulate N r.1) (mask ^^^ (1 <<< k)) (k :: acc)
+          let arr' := table cx.N r.1
+          let res ← search cx arr' (nodeVals arr') (mask ^^^ (1 <<< k)) (k :: acc)
           if res.isSome then return res
           if (← get).budget == 0 then return none
   modify fun s => { s with failed := s.failed.insert key }
   return none
 
-def searchBudget : Nat := 200000
-
 def sortByResp (ops : Array OpRec) : Array OpRec :=
   ops.qsort (fun a b => a.respPos < b.respPos)
+
+/-! #### second phase: which update did a read read from -/
+
+def insertSorted (x : Nat) : List Nat → List Nat
+  | [] => [x]
+  | y :: ys => if x < y then x :: y :: ys else if x == y then y :: ys else y :: insertSorted x ys
+
+/-- per node: the parameters it depends on (sorted) -/
+def relParams (arr : Array (Node Nat)) : Array (List Nat) :=
+  (arr.zipIdx).foldl (init := #[]) fun rel (n, j) =>
+    match n with
+    | .param _ _ => rel.push [j]
+    | .struct s => rel.push (s.deps.foldl (fun acc d => ((rel[d]?).getD []).foldl (fun a p => insertSorted p a) acc) [])
+
+def setParam (arr : Array (Node Nat)) (p v : Nat) : Array (Node Nat) :=
+  match arr[p]? with
+  | some (.param _ n) => arr.set! p (.param v n)
+  | _ => arr
+
+/-- all valuations of the parameters `ps` over their candidate values; for each, the value of node `i`
+    is recorded:  value ↦ the partial valuations producing it -/
+partial def invert (i : Nat) (cand : Nat → List Nat) : List Nat → Array (Node Nat) → List (Nat × Nat) →
+    Std.HashMap Nat (List (List (Nat × Nat))) → Std.HashMap Nat (List (List (Nat × Nat)))
+  | [], arr, alt, m =>
+    let h := ((nodeVals arr)[i]?).getD 0
+    m.insert h (alt :: (m[h]?).getD [])
+  | p :: ps, arr, alt, m =>
+    (cand p).foldl (fun m v => invert i cand ps (setParam arr p v) ((p, v) :: alt) m) m
+
+def inversionCap : Nat := 300000
+
+def buildCtx (N : Nat) (ops : Array OpRec) (arr0 : Array (Node Nat)) (prune : Bool) : Option Ctx :=
+  if !prune then some { N := N, ops := ops, prune := false, need := #[], writer := {} } else Id.run do
+    let mut writer : Std.HashMap (Nat × Nat) (Option Nat) := {}
+    for k in [0:ops.size] do
+      match (ops[k]!).op.call with
+      | .update p v =>
+        if isParam arr0 p then
+          writer := writer.insert (p, v) (if writer.contains (p, v) || paramVal arr0 p == some v then none else some k)
+      | _ => pure ()
+    let cand : Nat → List Nat := fun p =>
+      ((paramVal arr0 p).toList ++ ops.toList.filterMap fun o =>
+        match o.op.call with
+        | .update q v => if q == p then some v else none
+        | _ => none).eraseDups
+    let rel := relParams arr0
+    let mut tables : Std.HashMap Nat (Std.HashMap Nat (List (List (Nat × Nat)))) := {}
+    let mut need : Array (Option (List (List (Nat × Nat)))) := #[]
+    for k in [0:ops.size] do
+      let o := ops[k]!
+      match o.op.call, o.op.resp with
+      | .paramData p, .val x =>
+        need := need.push (if isParam arr0 p then some [[(p, x)]] else none)
+      | .artifact i, .val h =>
+        let ps := (rel[i]?).getD []
+        if (ps.foldl (fun acc p => acc * (cand p).length) 1) > inversionCap then
+          need := need.push none
+        else
+          if !tables.contains i then
+            tables := tables.insert i (invert i cand ps arr0 [] {})
+          let alts := (((tables[i]?).getD {})[h]?).getD []
+          -- a value no candidate valuation produces: the history has no linearization at all
+          if alts.isEmpty then return none
+          need := need.push (some alts)
+      | _, _ => need := need.push none
+    return some { N := N, ops := ops, prune := true, need := need, writer := writer }
+
+def budget1 : Nat := 3000
+def budget2 : Nat := 2000000
+
+def findOrder (N : Nat) (ops : Array OpRec) (arr0 : Array (Node Nat)) : Option (List Nat) :=
+  let full := (1 <<< ops.size) - 1
+  let vals0 := nodeVals arr0
+  let try1 := match buildCtx N ops arr0 false with
+    | some cx => ((search cx arr0 vals0 full []).run { budget := budget1 }).1
+    | none => none
+  match try1 with
+  | some o => some o
+  | none =>
+    match buildCtx N ops arr0 true with
+    | some cx => ((search cx arr0 vals0 full []).run { budget := budget2 }).1
+    | none => none
 
 def linearizable (ns : List (Node Nat)) (evs : List (Event Nat)) : Bool :=
   match collectOps evs with
   | none => false
   | some ops =>
     let byResp := sortByResp ops
-    let g0 := ofNodes ns
-    let N := ns.length
-    let (res, _) := (search N byResp g0 ((1 <<< byResp.size) - 1) []).run { budget := searchBudget }
-    match res with
+    let arr0 := ns.toArray
+    match findOrder ns.length byResp arr0 with
     | none => false
     | some order =>
       let S : List (LOp Nat) := order.filterMap fun k => byResp[k]?.map (·.op)
       -- the verified check decides; the search above is only a proposal
-      checkWitness g0 evs S
+      checkWitness (graphOf arr0) evs S
 
-def handleLin : P String := do
+/-- debugging aid (not used by the harness): search nodes used by phase 1 / phase 2 -/
+def searchStats (ns : List (Node Nat)) (evs : List (Event Nat)) : String :=
+  match collectOps evs with
+  | none => "malformed"
+  | some ops =>
+    let byResp := sortByResp ops
+    let arr0 := ns.toArray
+    let full := (1 <<< byResp.size) - 1
+    let vals0 := nodeVals arr0
+    let r1 := match buildCtx ns.length byResp arr0 false with
+      | some cx => let r := (search cx arr0 vals0 full []).run { budget := budget2 }; s!"{r.1.isSome} {budget2 - r.2.budget}"
+      | none => "none"
+    let r2 := match buildCtx ns.length byResp arr0 true with
+      | some cx => let r := (search cx arr0 vals0 full []).run { budget := budget2 }; s!"{r.1.isSome} {budget2 - r.2.budget}"
+      | none => "unmatched-artifact"
+    s!"ops {byResp.size} plain {r1} pruned {r2}"
+
+def handleLin (stats : Bool) : P String := do
   let ns ← pList pNode
   let evs ← pList pEvent
   pEnd
   if !wfNodes ns then failure
-  pure (Driver.boolStr (linearizable ns evs))
+  pure (if stats then searchStats ns evs else Driver.boolStr (linearizable ns evs))
 
 /-- one request -> one answer line; `none` = unknown op / malformed -/
 def handle (op : String) (args : List String) : Option String :=
   match op with
   | "c13.seq" => (handleSeq.run args).map (·.1)
-  | "c13.holds.linearizable" => (handleLin.run args).map (·.1)
+  | "c13.holds.linearizable" => ((handleLin false).run args).map (·.1)
+  | "c13.debug.search" => ((handleLin true).run args).map (·.1)
   | _ => none
 
 end Driver.C13
